@@ -63,7 +63,7 @@ func checkC08(c *Ctx) {
 		"and the body; (C08.frames) every PushCallFrame is popped on every non-error exit and method/constructor frames carry the receiver and the defining module; (C08.this) 其 comes only from vm.GetThisValue() and a nil receiver is an error; " +
 		"(C08.result) the value returned and the value bound by 得到 are the callee's result, and in a chain the receiver of link k+1 is the result of link k; (C08.new) Construct allocates a new object per call, hands exactly it and the call's arguments to the constructor, " +
 		"and defaults are deep-copied per instance (C07.dup/C07.obj rules re-run); (C08.unknown) all implementers of runtime.Element answer an unknown property/method with PropertyNotFound/MethodNotFound and Object.SetProperty refuses undeclared names. " +
-		"NOT decided: recursion depth limits, computed values."
+		"Also: NewObject is never handed the type's own default table as initial properties; (C08.unwind = C09.unwind) frames of failed inner calls are cut back completely before a handler runs. NOT decided: recursion depth limits, computed values."
 	R.Assumptions = []string{"Go evaluates range loops front to back", "runtime.New*CallFrame store their arguments (pkg/runtime/callframe.go, covered by baseline tests)"}
 	u := c.Core()
 	u.buildSSA()
@@ -103,6 +103,10 @@ func checkC08(c *Ctx) {
 	} else {
 		R.lost("C08.frames", "pkg/exec.execDirectFunction")
 	}
+
+	// frames of failed inner calls are cut back completely before a handler runs - otherwise the caller's pop
+	// removes a stale frame and 其 / the module of the CALLER are those of the callee (same fact as C09.unwind)
+	borrowRule(c, "C09", "C09.unwind", "C08.unwind")
 
 	// ---- C08.args + C08.result
 	if f := u.ssaFunc("pkg/exec", "evalFunctionCall"); f != nil {
@@ -535,7 +539,7 @@ func checkC09(c *Ctx) {
 		"*zerr.RuntimeError (division by zero, index errors, …) and *value.Exception (failing built-ins as converted by Function.Exec); (C09.match) a handler is chosen by comparing its class name with the exception's class name, runs under an " +
 		"exception frame holding the exception as 其 and the catching body's module, its return slot becomes the body's value, and with no match the incoming error itself is returned; (C09.unwind) before the handler's frame is pushed the call " +
 		"stack is cut back, by a loop popping frames while len(stack) > depth, to the depth captured when the protected body was entered (captured before the body runs); (C09.frames) the handler's own frame is popped on every non-error exit; (C09.scopes) every block ends the Scope object it began (deferred on the BeginScope result), so blocks unwound by a propagating error act on their own module even while a failed callee's frame is on top. " +
-		"NOT decided: state of other modules' symbol tables after arbitrary histories; only that the necessary unwinding operations exist on every path (their arithmetic is PopCallFrame's)."
+		"Also: Function.Exec returns a *Signal as the very same error value (an exception of a user-defined class keeps its class while propagating). NOT decided: state of other modules' symbol tables after arbitrary histories; only that the necessary unwinding operations exist on every path (their arithmetic is PopCallFrame's)."
 	R.Assumptions = []string{"PopCallFrame restores csModuleID from the new top frame (pkg/runtime/vm.go)", "Function.Exec converts non-signal errors of built-ins into *value.Exception"}
 	u := c.Core()
 	u.buildSSA()
@@ -630,6 +634,39 @@ func checkC09(c *Ctx) {
 	// Function.Exec: converts RuntimeError / native errors to *Exception, passes signals through
 	if fe := u.ssaFunc("pkg/value", "Function.Exec"); fe != nil {
 		R.check(len(u.callsNamed(fe, "pkg/value.NewException")) >= 1, "C09.channel", "pkg/value.Function.Exec", u.pos(fe.Pos()), "built-in failures are wrapped as exceptions", "built-in failures are no longer turned into exceptions")
+		// a signal (抛出 of any class, 继续/结束, 输出) leaves the function as the very same error value: an
+		// exception that is not handled here propagates outward unchanged
+		okSame, nTA := true, 0
+		for _, in := range instrsOf(fe) {
+			ta, isTA := in.(*ssa.TypeAssert)
+			if !isTA || !ta.CommaOk || !namedTypeIs(ta.AssertedType, "pkg/error", "Signal") || !isErrorType(ta.X.Type()) {
+				continue
+			}
+			for _, r := range *ta.Referrers() {
+				ex, isEx := r.(*ssa.Extract)
+				if !isEx || ex.Index != 1 {
+					continue
+				}
+				for _, d := range fe.Blocks {
+					ifi, isIf := d.Instrs[len(d.Instrs)-1].(*ssa.If)
+					if !isIf || ifi.Cond != ssa.Value(ex) {
+						continue
+					}
+					nTA++
+					for _, rr := range returnsReachable(d.Succs[0], 0, nil) {
+						if !edgeDominates(d, d.Succs[0], rr.Ret.Block()) {
+							continue
+						}
+						for _, src := range allSources(errorOperand(rr.Ret)) {
+							if src != ta.X && !flowsFrom(ta.X, func(v ssa.Value) bool { return v == src }) {
+								okSame = false
+							}
+						}
+					}
+				}
+			}
+		}
+		R.check(okSame && nTA >= 1, "C09.channel", "pkg/value.Function.Exec:signal-unchanged", u.pos(fe.Pos()), "a signal leaves the function as the same error value", "a signal leaving a function is replaced by another error value: an exception of a user-defined class loses its class on the way out")
 	}
 
 	// ---- C09.match
